@@ -58,6 +58,21 @@ Record AInv (done : list tup) (arcs : gmap (string * string) sarc) : Prop := {
   ai_arc : ∀ t, t ∈ done → is_Some (arcs !! (t_u t, t_v t));
   ai_ne : ∀ uv a, arcs !! uv = Some a → sa_via a ≠ ∅
 }.
+(** what the import needs of the arcs: the `via` sets, and that the coefficient it READS for a reaction on an arc — the entry of
+    the per-reaction map, else the legacy per-arc value — is the reaction's coefficient *)
+Record VAInv (done : list tup) (arcs : gmap (string * string) sarc) : Prop := {
+  va_via : ∀ u v a e, arcs !! (u, v) = Some a → e ∈ sa_via a ↔ ∃ t, t ∈ done ∧ t_e t = e ∧ t_u t = u ∧ t_v t = v;
+  va_val : ∀ a t, arcs !! (t_u t, t_v t) = Some a → t ∈ done →
+             default (sa_r a) (sa_rmap a !! t_e t) = Z.pos (t_c t) ∧ default (sa_p a) (sa_pmap a !! t_e t) = Z.pos (t_d t);
+  va_arc : ∀ t, t ∈ done → is_Some (arcs !! (t_u t, t_v t));
+  va_ne : ∀ uv a, arcs !! uv = Some a → sa_via a ≠ ∅
+}.
+Lemma AInv_VAInv done arcs : AInv done arcs → VAInv done arcs.
+Proof.
+  intros [Hvia Hmap Harc Hne]. split; [done| |done|done].
+  intros a t Ha Ht. destruct (Hmap a t Ha Ht) as [-> ->]. done.
+Qed.
+
 Definition NInv (nodes : gmap string snode) : Prop :=
   ∀ x nd, nodes !! x = Some nd → sn_label nd = None ∨ sn_label nd = Some x.
 
@@ -151,7 +166,7 @@ Qed.
 
 Section import.
   Context (H : net) (G : sgraph).
-  Context (HA : AInv (sg_tuples H) (g_arcs G)) (HN : NInv (g_nodes G)).
+  Context (HA : VAInv (sg_tuples H) (g_arcs G)) (HN : NInv (g_nodes G)).
 
   Lemma snode_label_id x : snode_label G x = x.
   Proof.
@@ -162,13 +177,13 @@ Section import.
   (** what every (arc, id) pair of the exported graph carries *)
   Definition good (t : triple) : Prop :=
     ∃ rx c d, edges H !! t.2 = Some rx ∧ r_lhs rx !! t.1.1.1 = Some c ∧ r_rhs rx !! t.1.1.2 = Some d ∧
-              sa_rmap t.1.2 !! t.2 = Some (Z.pos c) ∧ sa_pmap t.1.2 !! t.2 = Some (Z.pos d).
+              default (sa_r t.1.2) (sa_rmap t.1.2 !! t.2) = Z.pos c ∧ default (sa_p t.1.2) (sa_pmap t.1.2 !! t.2) = Z.pos d.
 
   Lemma triples_good t : t ∈ triples (g_arcs G) → good t.
   Proof.
     unfold triples. intros ([[u v] a] & (e & -> & He%elem_of_elements)%elem_of_list_fmap & Hin%elem_of_map_to_list)%elem_of_list_bind.
-    cbn [fst snd] in *. apply (ai_via _ _ HA u v a e Hin) in He as (t & Ht & <- & <- & <-).
-    destruct (ai_map _ _ HA a t Hin Ht) as [Hr Hp].
+    cbn [fst snd] in *. apply (va_via _ _ HA u v a e Hin) in He as (t & Ht & <- & <- & <-).
+    destruct (va_val _ _ HA a t Hin Ht) as [Hr Hp].
     apply elem_of_all_tuples in Ht as (rx & Hrx%elem_of_map_to_list & _ & Hu & Hv).
     exists rx, (t_c t), (t_d t). done.
   Qed.
@@ -241,10 +256,10 @@ Section import.
     intros Hrx Hu Hv.
     assert (Tup e (r_rule rx) u c v d ∈ sg_tuples H) as Ht.
     { apply elem_of_all_tuples. exists rx. cbn. split; [by apply elem_of_map_to_list|done]. }
-    destruct (ai_arc _ _ HA _ Ht) as [a Ha]. cbn in Ha. exists a.
+    destruct (va_arc _ _ HA _ Ht) as [a Ha]. cbn in Ha. exists a.
     unfold triples. apply elem_of_list_bind. exists (u, v, a). split; [|by apply elem_of_map_to_list].
     apply elem_of_list_fmap. exists e. split; [done|]. apply elem_of_elements.
-    apply (ai_via _ _ HA u v a e Ha). eexists. split; [exact Ht|done].
+    apply (va_via _ _ HA u v a e Ha). eexists. split; [exact Ht|done].
   Qed.
 
   Context (H2 : two_sided H).
@@ -287,12 +302,12 @@ Proof. induction l as [|x l IH]; intros s; [done|]. cbn [foldl]. rewrite IH. by 
 (** the import of ANY graph that carries, for the reactions of [H], the `via` sets and the per-reaction coefficient maps
     (whatever its legacy values, rule sets, `kind` / `mol` attributes; labels absent or equal to the node id) *)
 Lemma species_graph_import_inv (pick : gset string → string) (default_rule : string) (mol_attr : bool) (H : net) (G : sgraph) :
-  two_sided H → AInv (sg_tuples H) (g_arcs G) → NInv (g_nodes G) →
+  two_sided H → VAInv (sg_tuples H) (g_arcs G) → NInv (g_nodes G) →
   (species_graph_to_hypergraph pick default_rule mol_attr G).2 = None ∧
   stoich_of <$> edges (species_graph_to_hypergraph pick default_rule mol_attr G).1 = stoich_of <$> edges H.
 Proof.
   intros H2 HA HN.
-  unfold species_graph_to_hypergraph. rewrite (entries_flat G) by (intros; eapply ai_ne; eauto).
+  unfold species_graph_to_hypergraph. rewrite (entries_flat G) by (intros; eapply va_ne; eauto).
   fold (sg_ents G). cbn [orb].
   pose proof (sg_ents_spec H G HA HN H2) as Hspec. pose proof (sg_ents_dom H G HA HN H2) as Hdom.
   rewrite bool_decide_eq_false_2.
@@ -340,7 +355,7 @@ Lemma species_graph_roundtrip (pick : gset string → string) (default_rule : st
   stoich_of <$> edges (species_graph_to_hypergraph pick default_rule mol_attr (hypergraph_to_species_graph include_mol H)).1
     = stoich_of <$> edges H.
 Proof.
-  intros H2. destruct (export_inv include_mol H) as [HA HN]. by apply species_graph_import_inv.
+  intros H2. destruct (export_inv include_mol H) as [HA HN]. apply species_graph_import_inv; [done|by apply AInv_VAInv|done].
 Qed.
 
 (** * non-vacuity *)
